@@ -18,13 +18,17 @@ def bounds(tier):
 CH = "chr(9) + chr(10) + ' -~' + chr(160) + '-' + chr(255)"
 
 
-def mk(layout, maxlen=3, send=None, T=60):
+def mk(layout, maxlen=3, send=None, T=60, example=None, **extra):
     np_ = sum(l.count('p') for l in layout)
     P = {'layout': list(layout), 'send': send}
+    P.update(extra)
     sym = [('q%d' % i, 'str') for i in range(np_)]
     pre = ["re.fullmatch('[' + %s + ']{0,%d}', q%d)" % (CH, maxlen, i) for i in range(np_)]
     cid = 'C17/%s/len%d%s' % ('|'.join(layout), maxlen, '/via-roStorySend' if send is not None else '')
-    ex = {'q%d' % i: ['(a)', ' b ', '<c', ''][i % 4][:maxlen] for i in range(np_)}
+    for key, v in extra.items():
+        cid += '/%s-%s' % (key, v)
+    # anchors: combining characters (a normalisation would change them), no-break and ideographic spaces
+    ex = example or {'q%d' % i: ['e\u0301te\u0301 \u212b', '\u3000(a)\u2003', '<c', ''][i % 4] for i in range(np_)}
     return Cell(pid=PID, cid=cid, harness='h_access:script_cell', params=P, sym=sym, pre=pre,
                 stubs=(), timeout=T, cost=np_ * 10, example=ex)
 
@@ -43,4 +47,9 @@ def cells(tier):
     out.append(mk(['abwhugrn', 'nrguhwba'], maxlen=L, T=T))   # concrete only: order and concatenation
     for lay, send in ((['pi'], 0), (['ip', 'a'], 0), (['b', 'nipo'], 1), (['aib', 'u'], 0)):
         out.append(mk(lay, maxlen=L, send=send, T=T))
+    # stories that share an ID or have a blank one; items of a sent body that share an ID
+    out.append(mk(['pa', 'bia'], maxlen=L, T=T, story_ids='dup'))
+    out.append(mk(['ai', 'p'], maxlen=L, T=T, story_ids='blank'))
+    out.append(mk(['ipia', 'u'], maxlen=L, send=0, T=T, same_item_ids=True))
+    out.append(mk(['iipi'], maxlen=L, T=T, same_item_ids=True))
     return out
